@@ -146,6 +146,27 @@ class CoefV:
 NROWS = sp.Symbol("NVOL_FIT", positive=True, integer=True)       # rows of the design matrix: the number of sampled volumes
 
 
+LENF = sp.Function("NODES")
+
+
+def length_of(v):
+    """the number of entries of a data vector, as an atom that is the same for the vector and for what is made of it entry by entry
+    (flipped, logarithm, a multiple): NODES(<core vector>)"""
+    e = sp.sympify(as_sym(v))
+    changed = True
+    while changed:
+        changed = False
+        if getattr(e, "func", None) is not None and getattr(e.func, "__name__", "") in ("FLIP",) and e.args:
+            e, changed = e.args[0], True
+        elif isinstance(e, (sp.log, sp.exp)):
+            e, changed = e.args[0], True
+        elif isinstance(e, sp.Mul):
+            rest = [a_ for a_ in e.args if not a_.is_number]
+            if len(rest) == 1 and len(rest) != len(e.args):
+                e, changed = rest[0], True
+    return LENF(e)
+
+
 class VanderV:
     def __init__(self, x, ncols, increasing=False):
         self.x, self.ncols, self.increasing = x, ncols, increasing
@@ -155,11 +176,11 @@ class VanderV:
         if name == "dtype":
             return LibV("numpy.float64")
         if name == "shape":
-            return Tup([NROWS, as_sym(self.ncols)], "tuple")
+            return Tup([length_of(self.x), as_sym(self.ncols)], "tuple")
         raise ev.err(f"attribute {name} of a Vandermonde matrix", node, mod)
 
 
-def default_or_smaller_cutoff(rc, ncols) -> bool:
+def default_or_smaller_cutoff(rc, ncols, rows=None) -> bool:
     """numpy.linalg.lstsq(a, b, rcond): None (and -1) mean machine precision times max(M, N); a cut-off is harmless when it is at most that for every admissible
     shape (M >= N >= 2 rows / columns): a number <= 2 eps, or c * max(M, N) / c * M / c * N ... with c <= eps.  Anything larger drops singular directions the
     default solve keeps (the ln V Vandermonde matrix is nearly singular at orders 4-5)."""
@@ -169,8 +190,9 @@ def default_or_smaller_cutoff(rc, ncols) -> bool:
     r = as_sym(rc)
     if r.is_number:
         return bool(r <= 2 * EPS)
-    big = sp.Max(NROWS, as_sym(ncols))
-    for ref in (big, NROWS):
+    rows = NROWS if rows is None else rows
+    big = sp.Max(rows, as_sym(ncols))
+    for ref in (big, rows):
         q = sp.simplify(r / ref)
         if q.is_number:
             return bool(q <= EPS)
